@@ -12,7 +12,11 @@ convert the result to `cartesian`.  The update itself is *translated from the Py
 run (Generated/Propag: `meanMotion`, `keplerNewM`, `j2Delta`, the constants of beyond/constants.py);
 this file only adds the glue (`new = orbit.copy(); new[5] = …` and `new = orbit[:] + delta;
 new[3:] = new[3:] % (2π)`), tied by the correspondence run of harness/props/C05.py.
-The form conversions belong to C01 and are not modelled here.
+Of the form conversions (C01's subject) only the final `new.copy(form="cartesian")` is modelled: `meanToCart` chains
+its three edges, translated from forms.py (Generated/Propag, prefix `kp`), with the Newton loop of `Form.M2E` under a
+fuel argument (`none` = the loop did not exit: the code's loop exits only on convergence).
+`PropObj` models the propagator *object* (`_orbit`, written by the `orbit` setter) and `orbitPropagate` the call
+`Orbit.propagate`, so that call histories on one object can be compared with the real code.
 -/
 
 /-- `keplerian_mean` elements `[a, e, i, Ω, ω, M]` -/
@@ -38,5 +42,38 @@ def j2Step (mu : R) (x : Elts) (dt : R) : Elts :=
     { a := x.a + d0, e := x.e + d1, i := x.i + d2,
       raan := fmod (x.raan + d3) twoPi, argp := fmod (x.argp + d4) twoPi, M := fmod (x.M + d5) twoPi }
   | _ => x
+
+/-- `while abs(X1 - X) >= tol: X = X1; X1 = next(X)` then `return X1`; `none` = fuel exhausted -/
+def kpM2eLoop : Nat → R → R → R → R → Option R
+  | 0, _, _, _, _ => none
+  | fuel + 1, e, M, X, X1 => kpM2eContinue X1 X (kpM2eLoop fuel e M X1 (kpM2eNext X1 e M)) (some X1)
+
+/-- `Form.M2E(e, M)` -/
+def kpM2e (fuel : Nat) (e M : R) : Option R :=
+  let X := kpM2eStart e M
+  kpM2eLoop fuel e M X (kpM2eNext X e M)
+
+def app6 (f : R → R → R → R → R → R → R → List R) (mu : R) : List R → List R
+  | [c0, c1, c2, c3, c4, c5] => f mu c0 c1 c2 c3 c4 c5
+  | _ => []
+
+/-- the final `new.copy(form="cartesian")`: keplerian_mean → keplerian_eccentric (`M2E`) → keplerian → cartesian -/
+def meanToCart (fuel : Nat) (mu : R) (x : Elts) : Option (List R) :=
+  (kpM2e fuel x.e x.M).map (fun E => app6 kpKeplToCart mu (app6 kpEccToKepl mu [x.a, x.e, x.i, x.raan, x.argp, E]))
+
+/-- the propagator object: `_orbit`, the mean elements stored by the `orbit` setter (`none` before the first use) -/
+structure PropObj where
+  orbit : Option Elts
+
+/-- `propagator.orbit = orb` — `self._orbit = orbit.copy(form="keplerian_mean")`: converts and overwrites,
+unconditionally (`x` = the mean elements of the caller's orbit *now*) -/
+def PropObj.setOrbit (p : PropObj) (x : Elts) : PropObj := { orbit := some x }
+
+/-- `Orbit.propagate(dt)`: `if self.propagator.orbit is not self: self.propagator.orbit = self` — the getter returns the
+propagator's private converted copy, never the caller's object, so the setter runs on every call; then
+`propagator.propagate` works on `_orbit`.  `stepf` is `keplerStep mu` or `j2Step mu`. -/
+def orbitPropagate (stepf : Elts → R → Elts) (p : PropObj) (x : Elts) (dt : R) : PropObj × Option Elts :=
+  let p' := p.setOrbit x
+  (p', p'.orbit.map (fun o => stepf o dt))
 
 end BeyondVerif.F
